@@ -204,11 +204,71 @@ def step (st : Unit) (line : String) : Unit × String :=
         else (st, "BAD op")
     | _ => (st, "BAD op")
 
+/-- replace the `i`-th element -/
+def setAt {α} (l : List α) (i : Nat) (x : α) : List α := l.set i x
+
 def step' (st : Unit) (line : String) : Unit × String :=
   let (op, out) := splitArrow line
   let toks := words op
   match toks with
   | "case" :: _ => (st, "case")
+  | "updnoc" :: ts :: rest =>
+    match parseTime ts, (kv "fab" rest).bind String.toNat?, (kv "root" rest).bind parseRec,
+          (kv "noc" rest).bind parseRec, (kv "icac" rest).bind optRec with
+    | some t, some fab, some root, some noc, some icac =>
+      if out.startsWith "fabric:" then (st, "ok") else
+      let fv : FabricView := { fabricId := fab, root := root }
+      let model := match updateNoc t fv 9 noc icac with
+        | .ok (f, n) => s!"ok fab={f} node={n} idx=same"
+        | .error e => e.name
+      let want := decide (UpdateValid t fv 9 noc icac)
+      let ora :=
+        if want ≠ accepted out then some s!"spec={if want then "valid" else "invalid"} impl={out}"
+        else if accepted out ∧
+            out ≠ s!"ok fab={(fabricIdOf noc.subject).getD 0} node={(nodeIdOf noc.subject).getD 0} idx=same" then
+          some s!"updated identity differs from the certificate's / another fabric was touched: {out}"
+        else if out.contains "table=" then some s!"fabric table changed in an unexpected way: {out}"
+        else none
+      (st, verdict model out ora)
+    | _, _, _, _, _ => (st, "BAD updnoc")
+  | "addroot" :: ts :: rest =>
+    match parseTime ts, (kv "root" rest).bind parseRec with
+    | some t, some root =>
+      let model := if addTrustedRoot t root then "ok" else "InvalidCommand"
+      let want := decide (RootValid t root)
+      let ora := if want ≠ accepted out then some s!"spec={if want then "valid" else "invalid"} impl={out}" else none
+      (st, verdict model out ora)
+    | _, _ => (st, "BAD addroot")
+  | "tlvm" :: ts :: rest =>
+    if out.startsWith "skip:" then (st, "ok") else
+    match parseTime ts, (kv "fab" rest).bind String.toNat?, (kv "root" rest).bind parseRec,
+          (kv "noc" rest).bind parseRec, (kv "icac" rest).bind optRec,
+          (kv "who" rest).bind String.toNat?, (kv "rec" (words out)).bind parseRec with
+    | some t, some fab, some root, some noc, some icac, some who, some changed =>
+      let res := ((kv "res" (words out)).getD "").replace "_" " "
+      if res.startsWith "fabric:" then (st, "ok") else
+      -- the chain with the changed certificate in place
+      let noc' := if who = 0 then changed else noc
+      let icac' := if who = 1 then some changed else icac
+      let root' := if who = 2 then changed else root
+      if (kv "via" rest) = some "verify" then
+        let p := noc' :: (icac'.toList ++ [root'])
+        let modelOk : Bool := match verifyChain t p with | .ok _ => true | .error _ => false
+        let want := decide (PathValid t p)
+        if want ≠ accepted res then (st, s!"ORA spec={if want then "valid" else "invalid"} impl={res}")
+        else if modelOk ≠ accepted res then (st, s!"DIS {fmtUnit (verifyChain t p)}")
+        else (st, "ok")
+      else
+        let fv : FabricView := { fabricId := fab, root := root' }
+        let model := caseAccept t fv noc' icac'
+        let want := decide (CaseValid t fv noc' icac')
+        if want ≠ accepted res then (st, s!"ORA spec={if want then "valid" else "invalid"} impl={res}")
+        else if accepted res ∧ res ≠ s!"ok node={(nodeIdOf noc'.subject).getD 0}" then
+          (st, s!"ORA admitted node id differs from the certificate's: {res}")
+        else if (match model with | .ok _ => true | .error _ => false) ≠ accepted res then
+          (st, s!"DIS {fmtCase model}")
+        else (st, "ok")
+    | _, _, _, _, _, _, _ => (st, "BAD tlvm")
   | "cval" :: ts :: rest =>
     match parseTime ts, (kv "fab" rest).bind String.toNat?, (kv "root" rest).bind parseRec,
           (kv "noc" rest).bind parseRec, (kv "icac" rest).bind optRec with
